@@ -231,7 +231,9 @@ class Model(HoloPyObject):
         # if they are not, this method needs to be changed.
         dummy_parameters = dict()
         for key, value in scatterer.parameters.items():
-            parameter_is_1d_group = hasattr(value, '__len__')
+            # (a 0-d array has __len__ but is a number)
+            parameter_is_1d_group = hasattr(value, '__len__') and not (
+                isinstance(value, np.ndarray) and value.ndim == 0)
             if parameter_is_1d_group:
                 dummy_parameters[key] = [0 for _ in value]
             else:
